@@ -212,21 +212,38 @@ func (c *collector) interferers() []entry {
 	return append([]entry(nil), c.interf...)
 }
 
-func (c *collector) partialMsg(step int) string { return partialText(c.tag, step, c.stepAt(step).Msg) }
+func (c *collector) partialMsg(step int) string {
+	st := c.stepAt(step)
+	return partialText(c.tag, step, st.Msg, st.Pad)
+}
+
+// filler is n bytes of text that differs from position to position (a run of
+// numbered records), so that a shortened, repeated or shifted copy is not equal to it.
+func filler(n int) string {
+	if n <= 0 {
+		return ""
+	}
+	b := make([]byte, 0, n+16)
+	for i := 0; len(b) < n; i++ {
+		b = append(b, " #"...)
+		b = strconv.AppendInt(b, int64(i), 10)
+	}
+	return string(b[:n])
+}
 
 // percentTail is appended to the error_message for the shape "percent": the
 // message is data and has to arrive at the error handler as it was sent.
 const percentTail = " 100%d of %s rows %v %!x(MISSING) 5%"
 
 // partialText is the error_message sent for a partial success of the given shape.
-func partialText(tag string, step int, shape string) string {
+func partialText(tag string, step int, shape string, pad int) string {
 	switch shape {
 	case "empty":
 		return ""
 	case "percent":
-		return fmt.Sprintf("%s-k%d rejected", tag, step) + percentTail
+		return fmt.Sprintf("%s-k%d rejected", tag, step) + filler(pad) + percentTail
 	}
-	return fmt.Sprintf("%s-k%d rejected", tag, step)
+	return fmt.Sprintf("%s-k%d rejected", tag, step) + filler(pad)
 }
 
 // maxLog: requests beyond this many are answered with a terminal failure
@@ -348,9 +365,9 @@ func (c *collector) ServeHTTP(w http.ResponseWriter, r *http.Request) {
 			w.Header().Set("Content-Type", "application/x-protobuf")
 		case httpRetryable(code):
 			outcome = oRetryable
-			payload = []byte("scripted failure")
+			payload = []byte("scripted failure" + filler(st.Pad))
 		default:
-			payload = []byte("scripted failure")
+			payload = []byte("scripted failure" + filler(st.Pad))
 		}
 		var hint time.Duration
 		if st.RetryAfter != "" {
@@ -362,6 +379,9 @@ func (c *collector) ServeHTTP(w http.ResponseWriter, r *http.Request) {
 		c.set(e, func(e *entry) {
 			e.Outcome, e.Hint, e.RespAt = outcome, hint, c.now()
 			e.Desc = fmt.Sprintf("HTTP %d Retry-After=%q", code, st.RetryAfter)
+			if st.Pad > 0 {
+				e.Desc += fmt.Sprintf(" body of %d bytes", len(payload))
+			}
 		})
 		w.WriteHeader(code)
 		_, _ = w.Write(payload)
@@ -467,16 +487,19 @@ func (c *collector) serveGRPC(ctx context.Context, req proto.Message, okResp fun
 	send := func() (any, error) {
 		code := codes.Code(st.Code)
 		if st.Kind == "partial" {
-			c.set(e, func(e *entry) { e.Outcome, e.RespAt, e.Desc = oPartial, c.now(), "gRPC OK + partial success" })
+			msg := c.partialMsg(e.Step)
+			c.set(e, func(e *entry) {
+				e.Outcome, e.RespAt, e.Desc = oPartial, c.now(), fmt.Sprintf("gRPC OK + partial success, error_message of %d bytes", len(msg))
+			})
 			defer c.responded(e)
-			return partial(st.Rejected, c.partialMsg(e.Step)), nil
+			return partial(st.Rejected, msg), nil
 		}
 		if code == codes.OK {
 			c.set(e, func(e *entry) { e.Outcome, e.RespAt, e.Desc = oSuccess, c.now(), "gRPC OK" })
 			defer c.responded(e)
 			return okResp(), nil
 		}
-		s := status.New(code, "scripted failure")
+		s := status.New(code, "scripted failure"+filler(st.Pad))
 		var hint time.Duration
 		// other details first (ExtraDetails of them), then the RetryInfo: the
 		// statement speaks of a status that CARRIES retry info, not of its position
@@ -506,6 +529,9 @@ func (c *collector) serveGRPC(ctx context.Context, req proto.Message, okResp fun
 		c.set(e, func(e *entry) {
 			e.Outcome, e.Hint, e.RespAt = outcome, hint, c.now()
 			e.Desc = fmt.Sprintf("gRPC %s RetryInfo=%dms", code, st.RetryInfoMS)
+			if st.Pad > 0 {
+				e.Desc += fmt.Sprintf(" status message of %d bytes", st.Pad+16)
+			}
 			if st.ExtraDetails > 0 {
 				e.Desc += fmt.Sprintf(" after %d other details", st.ExtraDetails)
 			}
